@@ -591,3 +591,701 @@ Proof.
       intros rd x _ _ _ Hx. lia.
     + intros _. split; reflexivity.
 Qed.
+
+(* ====================================================================== *)
+(* Text layer of the pileup path                                            *)
+
+From Coq Require Import Permutation Sorting.Sorted.
+From CNV Require Import Model.Decimal Model.Chromsort Proofs.ChromsortLemmas Proofs.CoverageLib.
+
+Lemma TABC_is_SEPC : TABC = SEPC.
+Proof. reflexivity. Qed.
+
+Lemma SEPC_not_eol : is_eol SEPC = false.
+Proof. reflexivity. Qed.
+
+Lemma EOLC_is_eol : is_eol EOLC = true.
+Proof. reflexivity. Qed.
+
+Lemma forallb_impl {A} (p q : A -> bool) l :
+  (forall x, p x = true -> q x = true) -> forallb p l = true -> forallb q l = true.
+Proof.
+  intros H. induction l as [|x t IH]; cbn; [reflexivity|].
+  intros E. apply andb_prop in E. destruct E as [Ex Et]. now rewrite (H x Ex), (IH Et).
+Qed.
+
+Lemma plain_char_props c :
+  negb (Ascii.eqb c "009"%char || Ascii.eqb c "010"%char || Ascii.eqb c "013"%char) = true ->
+  negb (is_char SEPC c) = true /\ negb (is_eol c) = true.
+Proof. destruct c as [[] [] [] [] [] [] [] []]; vm_compute; intros H; try discriminate; split; reflexivity. Qed.
+
+Lemma numchar_props c :
+  numchar c = true -> negb (is_char SEPC c) = true /\ negb (is_eol c) = true /\ is_char QUOTEC c = false.
+Proof. destruct c as [[] [] [] [] [] [] [] []]; vm_compute; intros H; try discriminate; repeat split; reflexivity. Qed.
+
+Lemma plain_field_clean s :
+  plain_field s -> clean (is_char SEPC) (chars s) /\ clean is_eol (chars s).
+Proof.
+  unfold plain_field, clean. intros H. split.
+  - revert H. apply forallb_impl. intros c Hc. now apply plain_char_props in Hc.
+  - revert H. apply forallb_impl. intros c Hc. now apply plain_char_props in Hc.
+Qed.
+
+Lemma print_clean z :
+  clean (is_char SEPC) (chars (print_Z z)) /\ clean is_eol (chars (print_Z z)).
+Proof.
+  pose proof (cl_print_numchars z) as H. unfold clean. split.
+  - revert H. apply forallb_impl. intros c Hc. now apply numchar_props in Hc.
+  - revert H. apply forallb_impl. intros c Hc. now apply numchar_props in Hc.
+Qed.
+
+Lemma print_unquoted q z : unquote_field q (chars (print_Z z)) = Some (chars (print_Z z)).
+Proof.
+  unfold unquote_field. destruct (q =? 3); [reflexivity|].
+  pose proof (cl_print_numchars z) as H.
+  destruct (chars (print_Z z)) as [|c t]; [reflexivity|].
+  cbn in H. apply andb_prop in H. destruct H as [Hc _].
+  apply numchar_props in Hc. destruct Hc as [_ [_ Hq]]. now rewrite Hq.
+Qed.
+
+Lemma wf_field_unquoted q s : wf_field q s -> unquote_field q (chars s) = Some (chars s).
+Proof.
+  intros [_ [Hq|Hu]]; unfold unquote_field.
+  - subst q. reflexivity.
+  - destruct (q =? 3); [reflexivity|]. unfold unquoted_field in Hu.
+    destruct (chars s) as [|c t]; [reflexivity|].
+    change (is_char QUOTEC c) with (Ascii.eqb c """"%char). now rewrite Hu.
+Qed.
+
+Lemma clean_join p sep fs :
+  p sep = false -> Forall (clean p) fs -> clean p (join_chars sep fs).
+Proof.
+  intros Hs. induction fs as [|f t IH]; intros H; [reflexivity|].
+  inversion H as [|? ? Hf Ht]; subst. destruct t as [|g t'].
+  - exact Hf.
+  - change (join_chars sep (f :: g :: t')) with (f ++ sep :: join_chars sep (g :: t')).
+    unfold clean in *. rewrite forallb_app. cbn [forallb]. rewrite Hf, Hs. cbn. now apply IH.
+Qed.
+
+Lemma join_two_nonempty sep f g t : join_chars sep (f :: g :: t) <> [].
+Proof.
+  change (join_chars sep (f :: g :: t)) with (f ++ sep :: join_chars sep (g :: t)).
+  destruct f; discriminate.
+Qed.
+
+(* the fields of one bedcov record, as character lists *)
+Definition rec_fields (bn : bedline * Z) : list (list ascii) :=
+  map chars (bed_fields (fst bn) ++ [print_Z (snd bn)]).
+
+Definition rec_chars (bn : bedline * Z) : list ascii := join_chars SEPC (rec_fields bn).
+
+Lemma bedcov_line_rec bn : bedcov_line bn = rec_chars bn ++ [EOLC].
+Proof. reflexivity. Qed.
+
+Lemma rec_fields_length (b : bedline) n : length (rec_fields (b, n)) = (4 + length (snd b))%nat.
+Proof.
+  destruct b as [[[c lo] hi] rest]. unfold rec_fields, bed_fields. cbn [fst snd].
+  rewrite map_length, app_length. cbn. lia.
+Qed.
+
+Lemma rec_fields_clean q ncols b n :
+  wf_bedline q ncols b ->
+  Forall (clean (is_char SEPC)) (rec_fields (b, n)) /\ Forall (clean is_eol) (rec_fields (b, n)).
+Proof.
+  destruct b as [[[c lo] hi] rest]. intros [_ Hf].
+  unfold rec_fields, bed_fields. cbn [fst snd].
+  assert (Hplain : Forall plain_field (c :: rest)).
+  { eapply Forall_impl; [|exact Hf]. intros s Hs. apply Hs. }
+  inversion Hplain as [|? ? Hc Hr]; subst.
+  split.
+  - cbn [map app]. constructor; [apply plain_field_clean, Hc|].
+    constructor; [apply print_clean|]. constructor; [apply print_clean|].
+    rewrite map_app. apply Forall_app. split.
+    + apply Forall_map. eapply Forall_impl; [|exact Hr]. intros s Hs. now apply plain_field_clean.
+    + cbn. constructor; [apply print_clean|constructor].
+  - cbn [map app]. constructor; [apply plain_field_clean, Hc|].
+    constructor; [apply print_clean|]. constructor; [apply print_clean|].
+    rewrite map_app. apply Forall_app. split.
+    + apply Forall_map. eapply Forall_impl; [|exact Hr]. intros s Hs. now apply plain_field_clean.
+    + cbn. constructor; [apply print_clean|constructor].
+Qed.
+
+Lemma rec_fields_unquoted q ncols b n :
+  wf_bedline q ncols b ->
+  all_some (map (unquote_field q) (rec_fields (b, n))) = Some (rec_fields (b, n)).
+Proof.
+  destruct b as [[[c lo] hi] rest]. intros [_ Hf].
+  rewrite <- (map_id (rec_fields _)) at 2. apply all_some_map_some.
+  unfold rec_fields, bed_fields. cbn [fst snd]. intros x Hx.
+  apply in_map_iff in Hx. destruct Hx as [s [<- Hs]].
+  cbn [app] in Hs. destruct Hs as [<-|[<-|[<-|Hs]]].
+  - apply wf_field_unquoted. now inversion Hf.
+  - apply print_unquoted.
+  - apply print_unquoted.
+  - apply in_app_or in Hs. destruct Hs as [Hs|[<-|[]]].
+    + apply wf_field_unquoted. inversion Hf as [|? ? _ Hr]; subst.
+      rewrite Forall_forall in Hr. now apply Hr.
+    + apply print_unquoted.
+Qed.
+
+Lemma rec_chars_props q ncols b n :
+  wf_bedline q ncols b ->
+  clean is_eol (rec_chars (b, n)) /\ rec_chars (b, n) <> [] /\
+  count_char TABC (rec_chars (b, n)) = Z.of_nat ncols /\
+  split_chars (is_char SEPC) (rec_chars (b, n)) = rec_fields (b, n).
+Proof.
+  intros Hwf. destruct (rec_fields_clean q ncols b n Hwf) as [Hsep Heol].
+  pose proof (rec_fields_length b n) as Hlen.
+  assert (Hn : (3 + length (snd b))%nat = ncols) by (destruct b as [[[c lo] hi] rest]; apply Hwf).
+  unfold rec_chars. set (fl := rec_fields (b, n)) in *.
+  assert (Hne : fl <> []) by (intros E; rewrite E in Hlen; cbn in Hlen; lia).
+  repeat split.
+  - apply clean_join; [apply SEPC_not_eol|exact Heol].
+  - destruct fl as [|f [|g t]]; cbn [length] in Hlen; try lia. apply join_two_nonempty.
+  - rewrite TABC_is_SEPC, count_char_join by assumption. rewrite Hlen. lia.
+  - now apply split_join.
+Qed.
+
+(* the column names detect_bedcov_columns returns for a k-column BED *)
+Definition detect_for (ncols : nat) : list string :=
+  match lookup_cols (Z.of_nat ncols) BEDCOV_COLS_BY_TABS with
+  | Some cols => cols
+  | None => BEDCOV_COLS_HEAD ++ filler_names (Z.of_nat ncols) ++ BEDCOV_COLS_TAIL
+  end.
+
+Lemma detect_record first rest ncols :
+  clean is_eol first -> count_char TABC first = Z.of_nat ncols -> (3 <= ncols)%nat ->
+  detect_bedcov_columns (first ++ EOLC :: rest) = DetectCols (detect_for ncols).
+Proof.
+  intros Hc Ht Hn. unfold detect_bedcov_columns.
+  rewrite before_char_app.
+  - rewrite Ht. replace (Z.of_nat ncols <? BEDCOV_MIN_TABS) with false
+      by (symmetry; apply Z.ltb_ge; unfold BEDCOV_MIN_TABS; lia).
+    unfold detect_for. destruct (lookup_cols (Z.of_nat ncols) BEDCOV_COLS_BY_TABS); reflexivity.
+  - revert Hc. unfold clean. apply forallb_impl. intros c. unfold is_eol.
+    destruct (is_char EOLC c); [discriminate|reflexivity].
+Qed.
+
+Lemma z_range_length a b : length (z_range a b) = Z.to_nat (b - a).
+Proof. unfold z_range. now rewrite map_length, seq_length. Qed.
+
+Lemma filler_not_name name n :
+  (match name with String c _ => Ascii.eqb "_"%char c = false | EmptyString => True end) ->
+  Forall (fun c => String.eqb c name = false) (filler_names n).
+Proof.
+  intros Hname. unfold filler_names. apply Forall_map. apply Forall_forall. intros i _.
+  change (BEDCOV_FILLER_PREFIX ++ print_Z i)%string with (String "_"%char (print_Z i)).
+  destruct name as [|c t]; [reflexivity|].
+  change (String.eqb (String "_"%char (print_Z i)) (String c t))
+    with (if Ascii.eqb "_"%char c then String.eqb (print_Z i) t else false).
+  now rewrite Hname.
+Qed.
+
+Lemma names_verbatim_true : names_verbatim = true.
+Proof. reflexivity. Qed.
+
+Lemma as_name_id s : as_name s = s.
+Proof. unfold as_name. now rewrite names_verbatim_true. Qed.
+
+Lemma parse_fields_record c lo hi rest n :
+  parse_fields (detect_for (3 + length rest))
+               (c :: print_Z lo :: print_Z hi :: rest ++ [print_Z n])
+  = Some (c, lo, hi, hd_opt rest, n).
+Proof.
+  destruct rest as [|g [|x more]].
+  - (* 3 columns *)
+    cbn. rewrite !cl_parse_print, ?as_name_id. reflexivity.
+  - (* 4 columns *)
+    cbn. rewrite !cl_parse_print, ?as_name_id. reflexivity.
+  - (* 5 and more: chromosome start end gene _1 .. basecount *)
+    set (k := (3 + length (g :: x :: more))%nat).
+    assert (Hk : Z.of_nat k = 5 + Z.of_nat (length more)) by (unfold k; cbn [length]; lia).
+    assert (Hd : detect_for k = (BEDCOV_COLS_HEAD ++ filler_names (Z.of_nat k)) ++ BEDCOV_COLS_TAIL).
+    { unfold detect_for, BEDCOV_COLS_BY_TABS. cbn [lookup_cols].
+      replace (Z.of_nat k =? 3) with false by (symmetry; apply Z.eqb_neq; lia).
+      replace (Z.of_nat k =? 4) with false by (symmetry; apply Z.eqb_neq; lia).
+      now rewrite app_assoc. }
+    assert (Hfl : length (filler_names (Z.of_nat k)) = S (length more)).
+    { unfold filler_names. rewrite map_length, z_range_length.
+      unfold BEDCOV_FILLER_FROM, BEDCOV_FILLER_STOP_MINUS. lia. }
+    unfold parse_fields.
+    replace (length (c :: print_Z lo :: print_Z hi :: (g :: x :: more) ++ [print_Z n]) =? length (detect_for k))%nat
+      with true.
+    2:{ symmetry. apply Nat.eqb_eq. rewrite Hd. cbn [length]. rewrite !app_length, Hfl. cbn. lia. }
+    cbn [negb].
+    assert (Hbase : assoc_field COL_BASECOUNT (detect_for k)
+                      (c :: print_Z lo :: print_Z hi :: (g :: x :: more) ++ [print_Z n]) = Some (print_Z n)).
+    { rewrite Hd.
+      change (c :: print_Z lo :: print_Z hi :: (g :: x :: more) ++ [print_Z n])
+        with ((c :: print_Z lo :: print_Z hi :: g :: x :: more) ++ [print_Z n]).
+      apply assoc_field_last.
+      - rewrite app_length, Hfl. cbn. lia.
+      - apply Forall_app. split; [repeat constructor|]. now apply filler_not_name. }
+    rewrite Hbase. rewrite Hd. cbn -[filler_names].
+    rewrite !cl_parse_print, ?as_name_id. reflexivity.
+Qed.
+
+Lemma parse_line_record q ncols b n :
+  wf_bedline q ncols b ->
+  parse_line_q q (detect_for ncols) (rec_chars (b, n)) = Some (parsed_of (b, n)).
+Proof.
+  intros Hwf. unfold parse_line_q.
+  destruct (rec_chars_props q ncols b n Hwf) as [_ [_ [_ Hsplit]]].
+  rewrite Hsplit, (rec_fields_unquoted q ncols b n Hwf).
+  unfold rec_fields. rewrite cl_map_unchars_chars.
+  destruct b as [[[c lo] hi] rest]. destruct Hwf as [<- _].
+  cbn [fst snd bed_fields app]. apply parse_fields_record.
+Qed.
+
+Lemma bedcov_text_chars bins counts :
+  chars (bedcov_text bins counts) = concat (map (fun l => l ++ [EOLC]) (map rec_chars (combine bins counts))).
+Proof. unfold bedcov_text. rewrite cl_chars_unchars, map_map. reflexivity. Qed.
+
+Lemma combine_wf {q ncols} bins (counts : list Z) :
+  Forall (wf_bedline q ncols) bins -> Forall (fun bn => wf_bedline q ncols (fst bn)) (combine bins counts).
+Proof.
+  intros H. apply Forall_forall. intros [b n] Hin. apply in_combine_l in Hin.
+  rewrite Forall_forall in H. now apply H.
+Qed.
+
+(* C09_bedcov_parse *)
+Lemma bedcov_parse_ok q ncols bins counts :
+  bins <> [] -> length counts = length bins -> Forall (wf_bedline q ncols) bins ->
+  parse_bedcov_q q (bedcov_text bins counts) = Some (map parsed_of (combine bins counts)).
+Proof.
+  intros Hne Hlen Hwf. unfold parse_bedcov_q. rewrite bedcov_text_chars.
+  pose proof (combine_wf bins counts Hwf) as Hall.
+  set (bns := combine bins counts) in *.
+  assert (Hcl : Forall (clean is_eol) (map rec_chars bns)).
+  { apply Forall_map. eapply Forall_impl; [|exact Hall]. intros [b n] H. now apply (rec_chars_props q ncols b n). }
+  assert (Hnn : Forall (fun l : list ascii => l <> []) (map rec_chars bns)).
+  { apply Forall_map. eapply Forall_impl; [|exact Hall]. intros [b n] H. now apply (rec_chars_props q ncols b n). }
+  (* the first record gives the columns *)
+  destruct bns as [|[b0 n0] rest] eqn:E.
+  { destruct bins; [congruence|]. destruct counts; [discriminate|]. discriminate. }
+  assert (H0 : wf_bedline q ncols b0) by (inversion Hall; assumption).
+  assert (Hn3 : (3 <= ncols)%nat). { destruct b0 as [[[c lo] hi] r]. destruct H0 as [<- _]. lia. }
+  destruct (rec_chars_props q ncols b0 n0 H0) as [Hc0 [_ [Ht0 _]]].
+  assert (Hdet : detect_bedcov_columns (concat (map (fun l => l ++ [EOLC]) (map rec_chars ((b0, n0) :: rest))))
+                 = DetectCols (detect_for ncols)).
+  { cbn [map concat]. rewrite <- app_assoc. cbn [app]. now apply detect_record. }
+  rewrite Hdet. unfold text_lines.
+  rewrite (split_records is_eol EOLC _ EOLC_is_eol Hcl), (filter_nonempty_records _ Hnn).
+  rewrite map_map. apply all_some_map_some. intros [b n] Hin.
+  apply parse_line_record. rewrite Forall_forall in Hall. now apply (Hall (b, n)).
+Qed.
+
+(* the table assembled from a parsed record is the model's pileup row of the bin *)
+Lemma pileup_row_of_parsed_of log2o cut reads b :
+  pileup_row_of_parsed log2o
+    (parsed_of (b, let '(c, lo, hi, _) := b in bases_pileup cut c lo hi reads))
+  = row_of log2o Pileup cut reads b.
+Proof. destruct b as [[[c lo] hi] [|g rest]]; reflexivity. Qed.
+
+Lemma combine_map_self {A B} (f : A -> B) (l : list A) : combine l (map f l) = map (fun x => (x, f x)) l.
+Proof. induction l as [|x t IH]; cbn; [reflexivity|]. now rewrite IH. Qed.
+
+(* samtools' text for the bins of one part, parsed and assembled, is the pileup table of the part *)
+Lemma pileup_table_of_bedcov log2o cut reads ncols bins :
+  bins <> [] -> Forall (wf_bedline BEDCOV_QUOTING ncols) bins ->
+  pileup_table_of_text log2o (bedcov_of cut reads bins) = Some (coverage log2o Pileup cut reads bins).
+Proof.
+  intros Hne Hwf. unfold pileup_table_of_text, bedcov_of, parse_bedcov.
+  rewrite (bedcov_parse_ok BEDCOV_QUOTING ncols); [|exact Hne|now rewrite map_length|exact Hwf].
+  cbn [option_map]. f_equal. rewrite combine_map_self, !map_map. unfold coverage.
+  apply map_ext. intros b. apply pileup_row_of_parsed_of.
+Qed.
+
+(* C09_pileup_text: the whole pileup path through text, over any split into non-empty
+   parts of well-formed lines, is the pileup table of the concatenated regions *)
+Lemma pileup_via_text_ok log2o cut reads ncols parts :
+  Forall (fun part => part <> [] /\ Forall (wf_bedline BEDCOV_QUOTING ncols) part) parts ->
+  pileup_via_text log2o cut reads parts = Some (coverage log2o Pileup cut reads (concat parts)).
+Proof.
+  intros H. unfold pileup_via_text.
+  rewrite (all_some_map_some _ (coverage log2o Pileup cut reads)).
+  - cbn [option_map]. f_equal. rewrite <- coverage_split_concat. reflexivity.
+  - intros part Hin. rewrite Forall_forall in H. destruct (H part Hin) as [Hne Hwf].
+    now apply (pileup_table_of_bedcov log2o cut reads ncols).
+Qed.
+
+Lemma chunks_parts_wf {A} (P : A -> Prop) k (l : list A) :
+  (1 <= k)%nat -> Forall P l -> Forall (fun part => part <> [] /\ Forall P part) (chunks k l).
+Proof.
+  intros Hk Hl. pose proof (chunks_fuel_nonempty (length l) k l Hk) as Hne.
+  assert (Hin : forall part, In part (chunks k l) -> Forall P part).
+  { intros part Hp. apply Forall_forall. intros x Hx. rewrite Forall_forall in Hl. apply Hl.
+    rewrite <- (concat_chunks k l Hk). apply in_concat. exists part. now split. }
+  apply Forall_forall. intros part Hp. split; [|now apply Hin].
+  rewrite Forall_forall in Hne. now apply Hne.
+Qed.
+
+(* ... in particular over the chunks of k lines *)
+Lemma pileup_via_text_chunks log2o cut reads ncols k bins :
+  (1 <= k)%nat -> Forall (wf_bedline BEDCOV_QUOTING ncols) bins ->
+  pileup_via_text log2o cut reads (chunks k bins) = Some (coverage log2o Pileup cut reads bins).
+Proof.
+  intros Hk Hwf. rewrite (pileup_via_text_ok log2o cut reads ncols).
+  - now rewrite concat_chunks.
+  - now apply chunks_parts_wf.
+Qed.
+
+(* a name that starts with a double quote does not survive pandas' default quoting *)
+Lemma quoted_name_refuted :
+  exists b n, Forall plain_field (bed_chrom b :: match b with (_, _, _, rest) => rest end) /\
+              parse_bedcov_q 0 (bedcov_text [b] [n]) <> Some [parsed_of (b, n)].
+Proof.
+  exists ("chr1", 100, 150, [String """"%char (String "T"%char (String """"%char EmptyString))])%string, 80.
+  split; [repeat constructor|]. vm_compute. discriminate.
+Qed.
+
+(* with csv.QUOTE_NONE no condition on quotes is needed *)
+Lemma wf_quote_none ncols b : plain_bedline ncols b -> wf_bedline 3 ncols b.
+Proof.
+  destruct b as [[[c lo] hi] rest]. intros [Hn Hp]. split; [exact Hn|].
+  eapply Forall_impl; [|exact Hp]. intros s Hs. split; [exact Hs|now left].
+Qed.
+
+(* ... and that is the mode the code uses (quoting=3 in bedcov's read_csv, /repo 0ba5218) *)
+Lemma plain_wf ncols b : plain_bedline ncols b -> wf_bedline BEDCOV_QUOTING ncols b.
+Proof. exact (wf_quote_none ncols b). Qed.
+
+Lemma plain_wf_all ncols bins :
+  Forall (plain_bedline ncols) bins -> Forall (wf_bedline BEDCOV_QUOTING ncols) bins.
+Proof. apply Forall_impl. apply plain_wf. Qed.
+
+Lemma bedcov_parse_verbatim ncols bins counts :
+  bins <> [] -> length counts = length bins -> Forall (plain_bedline ncols) bins ->
+  parse_bedcov (bedcov_text bins counts) = Some (map parsed_of (combine bins counts)).
+Proof.
+  intros Hne Hl Hp. unfold parse_bedcov.
+  apply (bedcov_parse_ok BEDCOV_QUOTING ncols); auto using plain_wf_all.
+Qed.
+
+Lemma pileup_via_text_verbatim log2o cut reads ncols parts :
+  Forall (fun part => part <> [] /\ Forall (plain_bedline ncols) part) parts ->
+  pileup_via_text log2o cut reads parts = Some (coverage log2o Pileup cut reads (concat parts)).
+Proof.
+  intros H. apply (pileup_via_text_ok log2o cut reads ncols).
+  eapply Forall_impl; [|exact H]. intros part [Hne Hp]. split; [exact Hne|now apply plain_wf_all].
+Qed.
+
+Lemma pileup_via_text_chunks_verbatim log2o cut reads ncols k bins :
+  (1 <= k)%nat -> Forall (plain_bedline ncols) bins ->
+  pileup_via_text log2o cut reads (chunks k bins) = Some (coverage log2o Pileup cut reads bins).
+Proof. intros Hk Hp. apply (pileup_via_text_chunks log2o cut reads ncols); auto using plain_wf_all. Qed.
+
+(* ====================================================================== *)
+(* parallel.to_chunks on the lines of the regions file                      *)
+
+Lemma to_chunks_concat k lines :
+  (1 <= k)%nat -> concat (to_chunks_lines k lines) = filter keep_line lines.
+Proof. intros Hk. unfold to_chunks_lines. now apply concat_chunks. Qed.
+
+Lemma to_chunks_sizes k lines :
+  (1 <= k)%nat ->
+  Forall (fun piece => (1 <= length piece <= k)%nat) (to_chunks_lines k lines) /\
+  Forall (fun piece => length piece = k) (removelast (to_chunks_lines k lines)).
+Proof.
+  intros Hk. unfold to_chunks_lines, chunks. split.
+  - pose proof (chunks_fuel_le (length (filter keep_line lines)) k (filter keep_line lines)) as Hle.
+    pose proof (chunks_fuel_nonempty (length (filter keep_line lines)) k (filter keep_line lines) Hk) as Hne.
+    rewrite Forall_forall in *. intros piece Hp. specialize (Hle piece Hp). specialize (Hne piece Hp).
+    destruct piece; [congruence|cbn [length] in *; lia].
+  - apply chunks_fuel_full; [exact Hk|lia].
+Qed.
+
+(* a comment line is a line whose first character is "#" *)
+Lemma keep_line_hash l : keep_line l = false <-> exists t, l = String "#"%char t.
+Proof.
+  destruct l as [|c t]; cbn.
+  - split; [discriminate|intros [t H]; discriminate].
+  - change CHUNK_COMMENT_PREFIX with (String "#"%char EmptyString).
+    change (String.eqb (String c EmptyString) (String "#"%char EmptyString))
+      with (if Ascii.eqb c "#"%char then true else false).
+    destruct (Ascii.eqb_spec c "#"%char) as [->|Hne]; cbn.
+    + split; [intros _; now exists t|reflexivity].
+    + split; [discriminate|]. intros [t' H]. injection H as H1 H2. congruence.
+Qed.
+
+Section PileupFile.
+Variable log2o : Q -> Q.
+Variable bed_of_line : string -> option bedline.
+(* samtools skips the lines to_chunks drops *)
+Hypothesis comments_skipped : forall l, keep_line l = false -> bed_of_line l = None.
+
+Lemma bins_of_lines_app l1 l2 :
+  bins_of_lines bed_of_line (l1 ++ l2) = bins_of_lines bed_of_line l1 ++ bins_of_lines bed_of_line l2.
+Proof. unfold bins_of_lines. apply flat_map_app. Qed.
+
+Lemma bins_of_lines_concat parts :
+  bins_of_lines bed_of_line (concat parts) = concat (map (bins_of_lines bed_of_line) parts).
+Proof.
+  induction parts as [|p t IH]; [reflexivity|]. cbn [concat map]. now rewrite bins_of_lines_app, IH.
+Qed.
+
+Lemma bins_of_lines_filter lines :
+  bins_of_lines bed_of_line (filter keep_line lines) = bins_of_lines bed_of_line lines.
+Proof.
+  induction lines as [|l t IH]; [reflexivity|]. cbn [filter].
+  destruct (keep_line l) eqn:E.
+  - change (l :: filter keep_line t) with ([l] ++ filter keep_line t).
+    change (l :: t) with ([l] ++ t). now rewrite !bins_of_lines_app, IH.
+  - change (l :: t) with ([l] ++ t). rewrite bins_of_lines_app, IH.
+    unfold bins_of_lines at 2. cbn [flat_map]. now rewrite (comments_skipped l E).
+Qed.
+
+(* C09_pileup_order / the file-level form of C09_chunks *)
+Lemma pileup_file_chunked_eq k cut reads lines :
+  (1 <= k)%nat ->
+  pileup_file_chunked log2o bed_of_line k cut reads lines = pileup_file log2o bed_of_line cut reads lines.
+Proof.
+  intros Hk. unfold pileup_file_chunked, pileup_file.
+  rewrite <- (bins_of_lines_filter lines), <- (to_chunks_concat k lines Hk), bins_of_lines_concat.
+  rewrite <- (coverage_split_concat log2o Pileup cut reads). unfold coverage_split. now rewrite map_map.
+Qed.
+
+Lemma pileup_file_order cut reads lines :
+  map row_key (pileup_file log2o bed_of_line cut reads lines) = map bin_key (bins_of_lines bed_of_line lines).
+Proof. unfold pileup_file. apply coverage_keys. Qed.
+
+End PileupFile.
+
+(* ====================================================================== *)
+(* row order of the --count table                                           *)
+
+Lemma same_chrom_refl x : same_chrom x x = true.
+Proof. unfold same_chrom. apply String.eqb_refl. Qed.
+
+Lemma same_chrom_eq x y : same_chrom x y = true <-> bed_chrom x = bed_chrom y.
+Proof. unfold same_chrom. apply String.eqb_eq. Qed.
+
+Lemma group_fuel_perm fuel l : (length l <= fuel)%nat -> Permutation (group_fuel fuel l) l.
+Proof.
+  revert l. induction fuel as [|f IH]; intros l Hl.
+  - destruct l; [constructor|cbn in Hl; lia].
+  - destruct l as [|x t]; [constructor|]. cbn [group_fuel].
+    change ((x :: filter (same_chrom x) t) ++ group_fuel f (filter (fun y => negb (same_chrom x y)) t))
+      with (x :: (filter (same_chrom x) t ++ group_fuel f (filter (fun y => negb (same_chrom x y)) t))).
+    constructor.
+    transitivity (filter (same_chrom x) t ++ filter (fun y => negb (same_chrom x y)) t).
+    + apply Permutation_app_head. apply IH.
+      pose proof (filter_length_le (fun y => negb (same_chrom x y)) t). cbn [length] in Hl. lia.
+    + apply filter_partition_perm.
+Qed.
+
+(* the rows of every chromosome keep their order *)
+Lemma group_fuel_rows_of_chrom c fuel l :
+  (length l <= fuel)%nat -> rows_of_chrom c (group_fuel fuel l) = rows_of_chrom c l.
+Proof.
+  unfold rows_of_chrom. revert l. induction fuel as [|f IH]; intros l Hl.
+  - destruct l; [reflexivity|cbn in Hl; lia].
+  - destruct l as [|x t]; [reflexivity|]. cbn [group_fuel].
+    rewrite filter_app. rewrite IH
+      by (pose proof (filter_length_le (fun y => negb (same_chrom x y)) t); cbn [length] in Hl; lia).
+    cbn [filter]. destruct (String.eqb c (bed_chrom x)) eqn:E.
+    + apply String.eqb_eq in E. subst c.
+      change (fun b => String.eqb (bed_chrom x) (bed_chrom b)) with (same_chrom x).
+      rewrite filter_filter_same.
+      rewrite (filter_none (same_chrom x) (filter (fun y => negb (same_chrom x y)) t)).
+      * now rewrite app_nil_r.
+      * intros y Hy. apply filter_In in Hy. destruct Hy as [_ Hy]. now destruct (same_chrom x y).
+    + rewrite (filter_none _ (filter (same_chrom x) t)).
+      * cbn [app]. rewrite filter_filter_comm. apply filter_all.
+        intros y Hy. apply filter_In in Hy. destruct Hy as [_ Hy].
+        destruct (same_chrom x y) eqn:Es; [|reflexivity].
+        apply same_chrom_eq in Es. rewrite <- Es, E in Hy. discriminate.
+      * intros y Hy. apply filter_In in Hy. destruct Hy as [_ Hy].
+        apply same_chrom_eq in Hy. now rewrite <- Hy.
+Qed.
+
+(* a table whose rows of one chromosome come before all others splits as such *)
+Lemma filter_split_downward {A} (p : A -> bool) (t : list A) :
+  (forall l1 y l2, t = l1 ++ y :: l2 -> p y = true -> forall z, In z l1 -> p z = true) ->
+  t = filter p t ++ filter (fun y => negb (p y)) t.
+Proof.
+  induction t as [|y t IH]; intros H; [reflexivity|]. cbn [filter].
+  destruct (p y) eqn:E; cbn [negb app].
+  - f_equal. apply IH. intros l1 z l2 Ht Hz w Hw.
+    apply (H (y :: l1) z l2); [now rewrite Ht|exact Hz|now right].
+  - (* no later row satisfies p *)
+    assert (Hnone : forall z, In z t -> p z = false).
+    { intros z Hz. destruct (p z) eqn:Ez; [|reflexivity].
+      apply in_split in Hz. destruct Hz as [l1 [l2 ->]].
+      rewrite <- E. symmetry. apply (H (y :: l1) z l2); [reflexivity|exact Ez|now left]. }
+    rewrite (filter_none p t Hnone). cbn [app]. f_equal. symmetry. apply filter_all.
+    intros z Hz. now rewrite (Hnone z Hz).
+Qed.
+
+Lemma region_leb_ckey a b :
+  region_leb bed_region a b = true -> ckey_leb (chrom_key (bed_chrom a)) (chrom_key (bed_chrom b)) = true.
+Proof.
+  destruct a as [[[ca la] ha] ra], b as [[[cb lb] hb] rb].
+  unfold region_leb, bed_region, rkey_of, rkey_leb, rkey_compare, ckey_leb. cbn [bed_chrom].
+  destruct (ckey_compare (chrom_key ca) (chrom_key cb)); congruence.
+Qed.
+
+Lemma strongly_sorted_filter {A} (R : A -> A -> Prop) (p : A -> bool) l :
+  StronglySorted R l -> StronglySorted R (filter p l).
+Proof.
+  induction 1 as [|x t Hs IH Hx]; cbn; [constructor|].
+  destruct (p x); [|exact IH]. constructor; [exact IH|].
+  apply Forall_forall. intros y Hy. apply filter_In in Hy. rewrite Forall_forall in Hx. now apply Hx.
+Qed.
+
+Lemma strongly_sorted_app_inv {A} (R : A -> A -> Prop) l1 y l2 :
+  StronglySorted R (l1 ++ y :: l2) -> forall z, In z l1 -> R z y.
+Proof.
+  induction l1 as [|a t IH]; intros H z Hz; [destruct Hz|].
+  cbn in H. inversion H as [|? ? Hs Ha]; subst. destruct Hz as [<-|Hz].
+  - rewrite Forall_forall in Ha. apply Ha. apply in_or_app. right. now left.
+  - now apply IH.
+Qed.
+
+(* on a sorted table whose chromosome names have separate keys the grouping changes nothing *)
+Lemma group_fuel_sorted_id fuel l :
+  (length l <= fuel)%nat -> region_sorted l -> keys_separate_names l -> group_fuel fuel l = l.
+Proof.
+  revert l. induction fuel as [|f IH]; intros l Hl Hs Hk.
+  - destruct l; [reflexivity|cbn in Hl; lia].
+  - destruct l as [|x t]; [reflexivity|]. cbn [group_fuel].
+    inversion Hs as [|? ? Hst Hx]; subst.
+    assert (Hsplit : t = filter (same_chrom x) t ++ filter (fun y => negb (same_chrom x y)) t).
+    { apply filter_split_downward. intros l1 y l2 Ht Hy z Hz.
+      apply same_chrom_eq. apply same_chrom_eq in Hy.
+      apply Hk; [now left|right; rewrite Ht; apply in_or_app; now left|].
+      (* key x <= key z <= key y = key x *)
+      apply ckey_leb_antisym.
+      - apply region_leb_ckey. rewrite Forall_forall in Hx. apply Hx. rewrite Ht. apply in_or_app. now left.
+      - rewrite Hy. apply region_leb_ckey. rewrite Ht in Hst.
+        now apply (strongly_sorted_app_inv _ l1 y l2 Hst). }
+    rewrite IH.
+    + cbn [app]. f_equal. now rewrite <- Hsplit.
+    + pose proof (filter_length_le (fun y => negb (same_chrom x y)) t). cbn [length] in Hl. lia.
+    + now apply strongly_sorted_filter.
+    + intros a b Ha Hb. apply filter_In in Ha. apply filter_In in Hb.
+      apply Hk; right; tauto.
+Qed.
+
+Lemma sort_regions_region_sorted bins : region_sorted (sort_regions bed_region bins).
+Proof. apply sort_regions_sorted. Qed.
+
+(* C09_count_order, general form: the --count table holds every region once, the rows of
+   each chromosome are those of the sorted table (by start, end; stable), in that order *)
+Lemma count_order_perm bins : Permutation (count_order bins) bins.
+Proof.
+  unfold count_order, group_by_chrom.
+  transitivity (sort_regions bed_region bins).
+  - apply group_fuel_perm. lia.
+  - apply Permutation_sym. apply sort_regions_perm.
+Qed.
+
+Lemma count_order_rows_of_chrom c bins :
+  rows_of_chrom c (count_order bins) = rows_of_chrom c (sort_regions bed_region bins).
+Proof. unfold count_order, group_by_chrom. apply group_fuel_rows_of_chrom. lia. Qed.
+
+Lemma keys_separate_perm l1 l2 : Permutation l1 l2 -> keys_separate_names l1 -> keys_separate_names l2.
+Proof.
+  intros Hp H a b Ha Hb. apply H; eapply Permutation_in; try eassumption; now apply Permutation_sym.
+Qed.
+
+(* ... and when distinct chromosome names have distinct keys it IS the sorted table *)
+Lemma count_order_sorted bins :
+  keys_separate_names bins -> count_order bins = sort_regions bed_region bins.
+Proof.
+  intros Hk. unfold count_order, group_by_chrom. apply group_fuel_sorted_id.
+  - lia.
+  - apply sort_regions_region_sorted.
+  - eapply keys_separate_perm; [apply sort_regions_perm|exact Hk].
+Qed.
+
+Lemma count_order_fast_eq bins : count_order_fast bins = count_order bins.
+Proof. unfold count_order_fast, count_order. now rewrite sort_regions_fast_eq. Qed.
+
+Lemma count_table_keys log2o cut reads bins :
+  map row_key (coverage_count_table log2o cut reads bins) = map bin_key (count_order bins).
+Proof. unfold coverage_count_table. apply coverage_keys. Qed.
+
+(* ====================================================================== *)
+(* min_mapq across both algorithms                                          *)
+
+Lemma min_mapq_zero r :
+  0 <= r_mapq r ->
+  counted 0 r = negb (flag_excluded (r_flag r)) /\ counted (pileup_cut 0) r = negb (flag_excluded (r_flag r)).
+Proof.
+  intros Hq. rewrite counted_pileup_cut by exact Hq. unfold counted.
+  replace (0 <=? r_mapq r) with true by (symmetry; apply Z.leb_le; exact Hq).
+  now rewrite andb_true_r.
+Qed.
+
+Lemma min_mapq_positive q r :
+  0 < q ->
+  counted q r = negb (flag_excluded (r_flag r)) && (q <=? r_mapq r) /\
+  counted (pileup_cut q) r = negb (flag_excluded (r_flag r)) && (q <=? r_mapq r).
+Proof.
+  intros Hq. unfold pileup_cut, BEDCOV_MAPQ_OPTION_CUT.
+  replace (0 <? q) with true by (symmetry; apply Z.ltb_lt; exact Hq). now split.
+Qed.
+
+(* the -Q option is given exactly for min_mapq > 0 *)
+Lemma pileup_cut_option q : pileup_cut q = if 0 <? q then q else 0.
+Proof. reflexivity. Qed.
+
+(* ---- the statements of Props/C09.v that combine several of the lemmas above ---- *)
+
+Lemma to_chunks_clause : forall k lines,
+  (1 <= k)%nat ->
+  concat (to_chunks_lines k lines) = filter keep_line lines /\
+  Forall (fun piece => (1 <= length piece <= k)%nat) (to_chunks_lines k lines) /\
+  Forall (fun piece => length piece = k) (removelast (to_chunks_lines k lines)).
+Proof.
+  intros k lines Hk. split; [now apply to_chunks_concat|]. now apply to_chunks_sizes.
+Qed.
+
+Lemma pileup_order_clause : forall (log2o : Q -> Q) (bed_of_line : string -> option bedline) k cut reads lines,
+  (forall l, keep_line l = false -> bed_of_line l = None) -> (1 <= k)%nat ->
+  pileup_file_chunked log2o bed_of_line k cut reads lines = pileup_file log2o bed_of_line cut reads lines /\
+  map row_key (pileup_file log2o bed_of_line cut reads lines) = map bin_key (bins_of_lines bed_of_line lines).
+Proof.
+  intros log2o bol k cut reads lines Hc Hk. split.
+  - now apply pileup_file_chunked_eq.
+  - apply pileup_file_order.
+Qed.
+
+Lemma count_order_clause : forall (log2o : Q -> Q) cut reads bins,
+  Permutation (count_order bins) bins /\
+  (forall c, rows_of_chrom c (count_order bins) = rows_of_chrom c (sort_regions bed_region bins)) /\
+  region_sorted (sort_regions bed_region bins) /\
+  map row_key (coverage_count_table log2o cut reads bins) = map bin_key (count_order bins).
+Proof.
+  intros log2o cut reads bins. split; [apply count_order_perm|].
+  split; [intros c; apply count_order_rows_of_chrom|].
+  split; [apply sort_regions_region_sorted|apply count_table_keys].
+Qed.
+
+Lemma count_order_sorted_clause : forall bins,
+  keys_separate_names bins ->
+  count_order bins = sort_regions bed_region bins /\ region_sorted (count_order bins).
+Proof.
+  intros bins Hk. rewrite (count_order_sorted bins Hk). split; [reflexivity|apply sort_regions_region_sorted].
+Qed.
+
+Lemma min_mapq_clause : forall q r,
+  0 <= r_mapq r ->
+  (q = 0 -> counted q r = negb (flag_excluded (r_flag r)) /\
+            counted (pileup_cut q) r = negb (flag_excluded (r_flag r))) /\
+  (0 < q -> counted q r = negb (flag_excluded (r_flag r)) && (q <=? r_mapq r) /\
+            counted (pileup_cut q) r = negb (flag_excluded (r_flag r)) && (q <=? r_mapq r)) /\
+  pileup_cut q = (if 0 <? q then q else 0).
+Proof.
+  intros q r Hq. split; [intros ->; now apply min_mapq_zero|]. split; [apply min_mapq_positive|apply pileup_cut_option].
+Qed.
+
+(* on reads without D/N the --count table is the pileup table of the same regions, rows
+   taken in the --count table's order *)
+Lemma count_table_is_pileup : forall (log2o : Q -> Q) cut reads bins,
+  Forall wf_read reads -> Forall no_refskip reads ->
+  coverage_count_table log2o cut reads bins = coverage log2o Pileup cut reads (count_order bins).
+Proof.
+  intros log2o cut reads bins Hw Hn. unfold coverage_count_table. symmetry. now apply coverage_agree.
+Qed.
